@@ -364,3 +364,31 @@ func itoa(i int) string {
 	}
 	return string(b)
 }
+
+// ErrEdgeEnds: wherever ev is known non-nil, control reaches only returns, and those return a non-nil error.
+func (w *World) ErrEdgeEnds(fn *ssa.Function, ev ssa.Value) bool {
+	f := w.Facts(fn)
+	idx := errorResultIndex(fn)
+	seen := false
+	for _, b := range fn.Blocks {
+		if n, k := f.KnownNil(b, ev); k && !n {
+			seen = true
+			if !leadsOnlyToReturns(b, func(x *ssa.BasicBlock) bool { n2, k2 := f.KnownNil(x, ev); return k2 && !n2 }) {
+				return false
+			}
+		}
+	}
+	for _, r := range liveReturns(fn) {
+		if n, k := f.KnownNil(r.Block(), ev); k && !n {
+			if idx < 0 {
+				return false
+			}
+			for _, lf := range w.Leaves(r.Results[idx], r) {
+				if !w.NonNil(lf.Val, lf.Facts) {
+					return false
+				}
+			}
+		}
+	}
+	return seen
+}
